@@ -294,7 +294,9 @@ def assert_valid_covariance(
     - positive semidefinite (approximately)
     """
     assert isinstance(covariance, np.ndarray)
-    assert np.allclose(covariance, covariance.T)
+    # Rounding asymmetry grows with the magnitude of the matrix, not of the individual entry
+    magnitude = max(1.0, np.max(np.abs(covariance), initial=0.0))
+    assert np.allclose(covariance, covariance.T, atol=1e-8 * magnitude)
 
     covariance_eigenvalues = np.linalg.eig(covariance)[0]
     # Rounding error in an eigenvalue grows with the size and magnitude of the matrix
